@@ -7,7 +7,7 @@ in the most significant used lane for every type; (3) the padding invariant (bit
 function that can write `storage` is enumerated from MIR (WHO-WRITES) and each has a lemma whose post-state has zero
 padding (L-empty, L-rank, L-ext, L-set, L-slice, L-rc) for every instance. Hence two histories spelling the same
 string yield the same storage, and comparisons/hash of storages are those of the strings."""
-from .. import lemmas, structural
+from .. import lemmas, structural, dt_strings
 from . import common
 
 THOROUGH_FACTS = True
@@ -48,3 +48,7 @@ def run(F, rep):
     for ty in common.kmer_type_names(F):
         rep.run(lemmas.kmer_default_lemmas, F, rep, ty, which={"from_bytes", "from_ascii"}, rule="L-default")
     rep.run(structural.kmer_storage_writers, F, rep)
+    # ... "no matter which sequence of operations produced them": k-mers read out of sequence containers (positional reads, terminal
+    # accessors) and decoded from ASCII text (the byte table behind from_ascii) are construction routes too
+    rep.run(common.run_store_kmer_lemmas, F, rep, "C11.7")
+    rep.run(dt_strings.byte_tables, F, rep, "C11.8")
